@@ -93,6 +93,16 @@ class Fn:
                 out.append((st, t, val, c))
         return out
 
+    def updates(self, chain: str) -> list[tuple[ast.stmt, ast.operator, ast.expr]]:
+        """(stmt, op, operand) for `T op= V` and for the spelled-out `T = T op V` (same thing for numbers)"""
+        out = []
+        for st, t, v in self.assigns(chain=chain):
+            if isinstance(st, ast.AugAssign):
+                out.append((st, st.op, st.value))
+            elif isinstance(st, ast.Assign) and len(st.targets) == 1 and isinstance(v, ast.BinOp) and norm(v.left) == norm(t):
+                out.append((st, v.op, v.right))
+        return out
+
     def raises(self, exc: Optional[str] = None) -> list[ast.Raise]:
         out = []
         for st in stmts_of(self.node):
